@@ -185,7 +185,16 @@ def stencil_definition_rules(ctx, p, align, order, n):
         ev = T.find_ops(val, "evalpoly")
         ok = len(ev) == 2
         hi = lo = None
-        if ok:
+        if not ev:
+            # the two evaluations written out (one pass over the coefficients for both ends): sum_k P[k] * x^(deg - k) each
+            Pk = op("ilag", order, lv)
+            parts = list(val.args) if isinstance(val, sp.Add) else [val]
+            pos = [t_ for t_ in parts if fname(t_) == "loopsum"]
+            neg = [-t_ for t_ in parts if fname(-t_) == "loopsum"]
+            if len(parts) == 2 and len(pos) == 1 and len(neg) == 1:
+                hi, lo = _polyeval_point(pos[0], Pk), _polyeval_point(neg[0], Pk)
+                ok = hi is not None and lo is not None
+        elif ok:
             a, b = ev
             if val == b - a:
                 a, b = b, a
@@ -254,45 +263,55 @@ def stencil_definition_rules(ctx, p, align, order, n):
     f = p.get_function(TI + "lagrange_base_polynomial_coef")
     it = Interp(p)
     r = T.to_term(it.call_function(f, [order, idx], {}, None))
-    Ls = [L for L in it.loops if L.func == f.qualname]
-    if len(Ls) != 1:
-        ctx.unsure(R, "lagrange_base_polynomial_coef", "expected one loop over the nodes", f.loc())
+    # the product over the other nodes may be accumulated in one loop or in separate loops (in helpers): each piece of state is
+    # taken with the loop that carries it, and every such loop must run over all nodes and skip the own one
+    Ls = [L for L in it.loops if L.lv is not None]
+    found = {"den": [], "deg": [], "poly": []}
+    for L in Ls:
+        for nm, c in L.carried.items():
+            if c[1] is None:
+                continue
+            if c[0] == 1:
+                found["den"].append((L, c))
+            elif c[0] == 0:
+                found["deg"].append((L, c))
+            elif T.to_term(c[0]) == op("store", op("zeros", order + 1), sp.Integer(0), sp.Integer(1)):
+                found["poly"].append((L, c))
+    if not Ls:
+        ctx.unsure(R, "lagrange_base_polynomial_coef", "no loop over the nodes found", f.loc())
+    elif any(len(v) != 1 for v in found.values()) or found["deg"][0][0] is not found["poly"][0][0]:
+        ctx.unsure(R, "lagrange_base_polynomial_coef[state]", "denominator / degree counter / coefficient array not identified",
+                   f.loc(), derived=str([sorted(L.carried) for L in Ls]))
     else:
-        L = Ls[0]
-        lv = L.lv
-        skip = CMP("eq", idx, lv)
-        ctx.expect(_range_bounds(L.iter) == (sp.Integer(0), order + 1), R,
-                   "lagrange_base_polynomial_coef[nodes]", "the product runs over the nodes 0..order", f.loc(), derived=L.iter)
-        dens = [(nm, c) for nm, c in L.carried.items() if c[0] == 1 and c[1] is not None]
-        cnts = [(nm, c) for nm, c in L.carried.items() if c[0] == 0 and c[1] is not None]
-        polys = [(nm, c) for nm, c in L.carried.items() if T.to_term(c[0]) == op("store", op("zeros", order + 1), sp.Integer(0), sp.Integer(1))]
-        if len(dens) != 1 or len(cnts) != 1 or len(polys) != 1:
-            ctx.unsure(R, "lagrange_base_polynomial_coef[state]", "denominator / degree counter / coefficient array not identified",
-                       f.loc(), derived=str(sorted(L.carried)))
-        else:
-            (_, (_, dsym, dfin)), (_, (_, jsym, jfin)), (_, (_, psym, pfin)) = dens[0], cnts[0], polys[0]
-            ctx.equiv(R, "lagrange_base_polynomial_coef[denominator]", dfin, T.ITE(skip, dsym, dsym * (idx - lv)), f.loc(),
-                      "denominator == product over the other nodes k of (index - k)", interp=it)
-            ctx.equiv(R, "lagrange_base_polynomial_coef[degree]", jfin, T.ITE(skip, jsym, jsym + 1), f.loc(),
-                      "the degree grows by one per factor and the own node is skipped", interp=it)
-            pf = T.to_term(pfin)
-            taken = T.resimplify(T.assume(pf, {skip: False}))
-            kept = T.resimplify(T.assume(pf, {skip: True}))
-            okp = kept == psym and fname(taken) == "store" and taken.args[0] == psym
-            if okp:
-                sl, newv = taken.args[1], taken.args[2]
-                # after the increment the degree is d = j+1: new[1..d] = old[1..d] - k*old[0..d-1]
-                up = op("slc", sp.Integer(1), jsym + 2, T.NONE_T)
-                lowr = op("slc", sp.Integer(0), jsym + 1, T.NONE_T)
-                okp = _slice0(sl) == up and sp.expand(_slice0(newv) - (op("item", psym, up) - lv * op("item", psym, lowr))) == 0
-            ctx.expect(okp, R, "lagrange_base_polynomial_coef[multiply by (x - k)]",
-                       "coefficients c[1..d] become c[1..d] - k*c[0..d-1] (d the new degree), i.e. the polynomial is multiplied by (x - k); "
-                       "untouched for the own node", f.loc(), derived=T.show(taken, 200))
-            num, den = r.as_numer_denom()
-            okres = fname(num) == "tabulate" and num.args[0] == T.to_term(polys[0][1][0]) and fname(den) == "loopfix" \
-                and den.args[0] == 1 and T.equivalent(den.args[1], T.to_term(dfin).xreplace({dsym: den.args[3]})) == T.Verdict.EQUAL
-            ctx.expect(okres, R, "lagrange_base_polynomial_coef[result]", "returns the coefficient array divided by the denominator",
-                       f.loc(), derived=T.show(r, 160))
+        (Ld, (_, dsym, dfin)), (Lp, (_, jsym, jfin)), (_, (p0, psym, pfin)) = found["den"][0], found["deg"][0], found["poly"][0]
+        used = [Ld] if Ld is Lp else [Ld, Lp]
+        ctx.expect(all(_range_bounds(L.iter) == (sp.Integer(0), order + 1) for L in used), R,
+                   "lagrange_base_polynomial_coef[nodes]", "the product runs over the nodes 0..order", f.loc(),
+                   derived=sp.Tuple(*[L.iter for L in used]))
+        skip_d, skip = CMP("eq", idx, Ld.lv), CMP("eq", idx, Lp.lv)
+        lv = Lp.lv
+        ctx.equiv(R, "lagrange_base_polynomial_coef[denominator]", dfin, T.ITE(skip_d, dsym, dsym * (idx - Ld.lv)), f.loc(),
+                  "denominator == product over the other nodes k of (index - k)", interp=it)
+        ctx.equiv(R, "lagrange_base_polynomial_coef[degree]", jfin, T.ITE(skip, jsym, jsym + 1), f.loc(),
+                  "the degree grows by one per factor and the own node is skipped", interp=it)
+        pf = T.to_term(pfin)
+        taken = T.resimplify(T.assume(pf, {skip: False}))
+        kept = T.resimplify(T.assume(pf, {skip: True}))
+        okp = kept == psym and fname(taken) == "store" and taken.args[0] == psym
+        if okp:
+            sl, newv = taken.args[1], taken.args[2]
+            # after the increment the degree is d = j+1: new[1..d] = old[1..d] - k*old[0..d-1]
+            up = op("slc", sp.Integer(1), jsym + 2, T.NONE_T)
+            lowr = op("slc", sp.Integer(0), jsym + 1, T.NONE_T)
+            okp = _slice0(sl) == up and sp.expand(_slice0(newv) - (op("item", psym, up) - lv * op("item", psym, lowr))) == 0
+        ctx.expect(okp, R, "lagrange_base_polynomial_coef[multiply by (x - k)]",
+                   "coefficients c[1..d] become c[1..d] - k*c[0..d-1] (d the new degree), i.e. the polynomial is multiplied by (x - k); "
+                   "untouched for the own node", f.loc(), derived=T.show(taken, 200))
+        num, den = r.as_numer_denom()
+        okres = fname(num) == "tabulate" and num.args[0] == T.to_term(p0) and fname(den) == "loopfix" \
+            and den.args[0] == 1 and T.equivalent(den.args[1], T.to_term(dfin).xreplace({dsym: den.args[3]})) == T.Verdict.EQUAL
+        ctx.expect(okres, R, "lagrange_base_polynomial_coef[result]", "returns the coefficient array divided by the denominator",
+                   f.loc(), derived=T.show(r, 160))
     ctx.absorb(it)
 
 
@@ -349,6 +368,21 @@ def _parse_step(L, lv, signal):
     if T.resimplify(_norm_len(sp.expand(cw - cs + js))) != 0:
         return None
     return wts[0].args[0], js, je, dt, jj, out, fin
+
+
+def _polyeval_point(ls, poly):
+    """x when `ls` is sum_k poly[k] * x**(len(poly) - 1 - k) over all coefficients (x free of the summation index), else None"""
+    body, k, rng = ls.args[:3]
+    if _range_bounds(rng) != (sp.Integer(0), sp.expand(op("len", poly))):
+        return None
+    coef = op("item", poly, k)
+    rest = sp.cancel(body / coef) if body.has(coef) else None
+    if rest is None or rest.has(coef):
+        return None
+    deg = op("len", poly) - 1 - k
+    if isinstance(rest, sp.Pow) and sp.expand(rest.args[1] - deg) == 0 and k not in rest.args[0].free_symbols:
+        return rest.args[0]
+    return None
 
 
 def _range_bounds(r):
